@@ -40,7 +40,7 @@ UNADVERTISED = ["zz_other_class_attr", "_private", "__dunder__", "extras_of_othe
 def GATES(tier):
     return [("calls_judged", 3000), ("methods_checked", 300), ("mode:single", 500), ("mode:positional", 100), ("mode:kwonly_positional_rejected", 100), ("mode:default", 200),
             ("mode:pair", 300), ("mode:unadvertised", 300), ("nested_keyword_sets_compared", 100), ("kind:__init__", 20), ("kind:element", 50), ("kind:scalar", 100), ("kind:toplevel", 30),
-            ("init_false_attrs_seen", 3), ("overflow_classes", 2), ("mode:unadvertised_if_false", 100), ("behavioural_probes", 20), ("unchanged_with_keyword_probes", 5), ("directed_cases", 20), ("overflow_sequences_steps", 10)]
+            ("init_false_attrs_seen", 3), ("overflow_classes", 2), ("mode:unadvertised_if_false", 100), ("behavioural_probes", 20), ("unchanged_with_keyword_probes", 5), ("directed_cases", 20), ("directed_value_cases", 10), ("overflow_sequences_steps", 10)]
 
 
 class Spy:
@@ -119,6 +119,34 @@ class Outer:
 """
 
 
+KWARGS_SRC = """
+from typing import List
+from spec_classes import spec_class
+
+@spec_class(bootstrap=True)
+class Call:
+    name: str = "f"
+    kwargs: dict = {}
+
+@spec_class(bootstrap=True)
+class Job:
+    retries: int = 3
+    label: str = "l"
+    flag: bool = True
+    tags: List[int] = [1]
+
+@spec_class(bootstrap=True)
+class Derived(Job):
+    own: int = 5
+
+@spec_class(bootstrap=True)
+class Plan:
+    call: Call
+    calls: List[Call]
+    job: Derived
+"""
+
+
 def directed_cases(ctx):
     """
     Nested types outside the generated grammar's Leaf/KLeaf: a plain subclass of a spec class (its init-enabled attributes
@@ -178,6 +206,41 @@ def directed_cases(ctx):
                 ctx.violation("unadvertised_rejected", f"HiddenKey.__init__{sig} does not advertise `k`, yet HiddenKey(*{args}, **{kw}) was accepted", features={"kind": "directed", "nested": "init_false_key", "verb": "__init__"}, case=["directed", "init_false_key", list(args)])
             except TypeError:
                 pass
+    # an init-enabled attribute that happens to be called `kwargs` is advertised, accepted and stored like any other
+    ns2 = cg.exec_module(KWARGS_SRC, prefix="verif_c17k").__dict__
+    Call, Plan, Derived = ns2["Call"], ns2["Plan"], ns2["Derived"]
+    probes2 = [
+        ("Call(kwargs={'a': 1})", lambda: Call(kwargs={"a": 1}).kwargs, {"a": 1}),
+        ("Call().update(kwargs={'a': 1})", lambda: Call().update(kwargs={"a": 1}).kwargs, {"a": 1}),
+        ("Call().transform(kwargs=f)", lambda: Call(kwargs={"a": 1}).transform(kwargs=lambda d: {**d, "b": 2}).kwargs, {"a": 1, "b": 2}),
+        ("Plan().with_call(kwargs={'a': 1})", lambda: Plan().with_call(kwargs={"a": 1}).call.kwargs, {"a": 1}),
+        ("Plan(call=Call()).update_call(kwargs={'a': 1})", lambda: Plan(call=Call()).update_call(kwargs={"a": 1}).call.kwargs, {"a": 1}),
+        ("Plan().with_calls_item(kwargs={'a': 1})", lambda: Plan().with_calls_item(kwargs={"a": 1}).calls[0].kwargs, {"a": 1}),
+        # falsy values for attributes a parent spec class owns, given to the subclass constructor / helpers, are values
+        ("Derived(retries=0)", lambda: Derived(retries=0).retries, 0),
+        ("Derived(label='')", lambda: Derived(label="").label, ""),
+        ("Derived(flag=False, retries=0, own=0)", lambda: (lambda d: (d.flag, d.retries, d.own))(Derived(flag=False, retries=0, own=0)), (False, 0, 0)),
+        ("Derived(tags=[])", lambda: Derived(tags=[]).tags, []),
+        ("Derived().update(retries=0)", lambda: Derived().update(retries=0).retries, 0),
+        ("Plan().with_job(retries=0)", lambda: Plan().with_job(retries=0).job.retries, 0),
+    ]
+    for label, fn, want in probes2:
+        ctx.count("behavioural_probes")
+        ctx.count("calls_judged")
+        ctx.count("directed_cases")
+        ctx.count("directed_value_cases")
+        try:
+            got = fn()
+        except Exception as e:
+            got = f"{type(e).__name__}: {e}"
+        if got != want:
+            ctx.violation("advertised_parameter_reaches_behaviour", f"{label} gave {safe_repr(got, 100)}, the value given was {want!r}",
+                          features={"kind": "directed", "nested": "kwargs_named_attr" if "kwargs" in label else "falsy_inherited", "verb": label.split("(")[0].split(".")[-1]}, case=["directed_value", label])
+    for cls_, mname in ((Call, "__init__"), (Call, "update"), (Call, "transform"), (Plan, "with_call"), (Plan, "update_call"), (Plan, "with_calls_item")):
+        ctx.count("directed_cases")
+        if "kwargs" not in inspect.signature(getattr(cls_, mname)).parameters:
+            ctx.violation("nested_keywords_match_nested_class", f"{cls_.__name__}.{mname}{inspect.signature(getattr(cls_, mname))} does not advertise the init-enabled attribute `kwargs`",
+                          features={"kind": "directed", "nested": "kwargs_named_attr", "verb": mname.split("_")[0]}, case=["directed_value_sig", cls_.__name__, mname])
     # overflow keywords: a sequence of calls with *different* keyword names on the same helper
     seqs = [
         [{"colour": "red"}, {"size": 3}, {"size": 4, "shade": 1}, {"colour": "blue", "depth": 2}, {}],
